@@ -12,9 +12,16 @@
                                     — does not return);
     *    `unify_keeps_wf`           the result set is well formed again, so the theorems chain over
                                     sequences of unifications.
-  NOT PROVED (`_partial` in the manifest): S — that the result, once resolved, makes both terms
-  identical (needs the acyclicity argument); decided on every run by the reference unifier of the
-  harness (random sequences + all ordered pairs of a 60-term universe under 10 prior sets).
+    * S  `unify_sound`              (anonymous-variable-free operands) every θ that validates the result
+                                    unifies a and b, and the result extends σ;
+    *    `unify_mgu`                hence: the substitutions that validate the result are EXACTLY the
+                                    unifiers of a, b that validate σ — the algorithm-independent meaning of
+                                    "the result is a most general unifier extending the prior bindings".
+  What remains outside the theorems: that a validating θ exists for the result at all (it does unless
+  the pair needs an occurs check, which the property excludes; constructing it needs the acyclicity of
+  the result), terms containing `$_` in the S direction (C09 covers `$_`), and termination (fuel).
+  All of it is decided on every run by the reference unifier of the harness (random sequences + all
+  ordered pairs of a 60-term universe under 10 prior sets).
 -/
 import SuironVerif.Lemmas.UnifyWF
 import SuironVerif.Lemmas.UnifyMgu
@@ -62,6 +69,25 @@ theorem failure_means_no_unifier (fo : FloatOps) (f : Nat) (a b : Term) (σ : Su
     (ha : Spec.goodT a = true) (hb : Spec.goodT b = true) (hσ : Spec.SubstGood σ)
     (h : unify fo f a b σ = .fail) : ¬ ∃ θ : Nat → Spec.FO, Spec.Solves θ σ ∧ Spec.Unifies θ a b :=
   fun ⟨θ, hs, hu⟩ => unify_no_false_failure fo θ f a b σ ha hb hσ hs hu h
+
+/-- (S) soundness, solution-set form: whatever validates the result unifies the operands; the result extends σ -/
+theorem unify_sound (fo : FloatOps) (f : Nat) (a b : Term) (σ σ' : Subst)
+    (h : unify fo f a b σ = .ok σ') (ha : Spec.goodT a = true) (hb : Spec.goodT b = true) (hσ : Spec.SubstGood σ)
+    (fa : Spec.Term.AF a = true) (fb : Spec.Term.AF b = true) (fσ : Spec.SubstAF σ) :
+    Spec.Extends σ σ' ∧ ∀ θ, Spec.Solves θ σ' → Spec.Unifies θ a b :=
+  let r := (Spec.unify_sound fo f).1 a b σ σ' h ha hb hσ fa fb fσ
+  ⟨r.1, r.2.2⟩
+
+/-- the result of `unify a b σ` is a most general unifier of a, b extending σ: its solutions are exactly
+    the unifiers of a, b among the solutions of σ -/
+theorem unify_mgu (fo : FloatOps) (f : Nat) (a b : Term) (σ σ' : Subst)
+    (h : unify fo f a b σ = .ok σ') (ha : Spec.goodT a = true) (hb : Spec.goodT b = true) (hσ : Spec.SubstGood σ)
+    (fa : Spec.Term.AF a = true) (fb : Spec.Term.AF b = true) (fσ : Spec.SubstAF σ) (θ : Nat → Spec.FO) :
+    Spec.Solves θ σ' ↔ (Spec.Solves θ σ ∧ Spec.Unifies θ a b) := by
+  have hs := unify_sound fo f a b σ σ' h ha hb hσ fa fb fσ
+  constructor
+  · intro h1; exact ⟨h1.mono hs.1, hs.2 θ h1⟩
+  · intro h1; exact unify_general fo θ f a b σ σ' h ha hb hσ h1.1 h1.2
 
 -- non-vacuity: a list pattern with a tail variable and a nested complex term are well formed
 example : Spec.goodT (.cons (.var 1 "$H") (.cons (.var 2 "$T") Term.empty 1 true) 2 false) = true := by decide
